@@ -882,7 +882,7 @@ fn main() {
     let tails = [Tail::None, Tail::None, Tail::Zero, Tail::BigHdr, Tail::BigMsg, Tail::BadJson, Tail::Truncated, Tail::Garbage];
 
     // 1. exhaustive splits (<= 4 chunks) of short streams: both directions, every tail
-    let nshort = args.cases(16, 120);
+    let nshort = args.cases(16, 240);
     for i in 0..nshort {
         let mut r = Rng::for_case(args.seed ^ 0xE1, i);
         let dir = if i % 2 == 0 { Dir::C2S } else { Dir::S2C };
@@ -901,7 +901,7 @@ fn main() {
 
     // 2. random longer streams, random schedules (empty reads and byte-by-byte included)
     ctx.framed_every = 3;
-    let nrand = args.cases(6_000, 150_000);
+    let nrand = args.cases(6_000, 300_000);
     for i in 0..nrand {
         let mut r = Rng::for_case(args.seed, i);
         let dir = if r.chance(1, 2) { Dir::C2S } else { Dir::S2C };
